@@ -408,7 +408,9 @@ fn item_blocks(cfg: &DocCfg, inner: BoxedStrategy<Blk>) -> BoxedStrategy<Vec<Blk
     // strict: an item starts with a paragraph. Other first blocks are behind features:
     //   item_first_block: code / quote / table / rule first (known finding: panics the section builder)
     //   item_first_list, item_first_heading, empty_item: restructurings the properties allow (C07 quantifier)
-    let para = inlines(cfg, true, 5).prop_map(Blk::Para).boxed();
+    // (the lead text of a tight item is not wrapped in a paragraph: a line break inside it is a
+    // feature of its own, see KF-TIGHT-ITEM-MULTILINE)
+    let para = inlines(cfg, cfg.on("break_in_item_lead"), 5).prop_map(Blk::Para).boxed();
     let mut firsts: Vec<(u32, BoxedStrategy<Blk>)> = vec![(12, para.clone())];
     if cfg.on("item_first_block") {
         firsts.push((
@@ -540,6 +542,7 @@ fn no_dash_rule_in_quote(bs: &mut Vec<Blk>, in_quote: bool) {
 pub fn doc(cfg: &DocCfg) -> BoxedStrategy<Doc> {
     let dash_rule_in_quote = cfg.on("dash_rule_in_quote");
     let adjacent_lists = cfg.on("adjacent_lists");
+    let no_trailing_nl = cfg.on("no_trailing_newline");
     let front_on = cfg.on("front_matter");
     let crlf_on = cfg.on("crlf");
     let many_lists = cfg.on("long_list");
@@ -607,7 +610,7 @@ pub fn doc(cfg: &DocCfg) -> BoxedStrategy<Doc> {
                 front,
                 blocks,
                 crlf: crlf_on && crlf == 0,
-                trailing_nl,
+                trailing_nl: if no_trailing_nl { trailing_nl } else { trailing_nl.max(1) },
                 leading_blank: if leading == 0 { 1 } else { 0 },
                 gap: if gap == 0 { 2 } else { 1 },
             };
